@@ -57,6 +57,8 @@ def plan(tier, seed):
     for fam in ("quad", "hexahedron", "quad9"):
         for n in (2, 3, 4, 5) if fam != "hexahedron" else (2, 3, 4):
             cases.append(dict(key=f"uniform/{fam}/n={n}", kind="uniform", fam=fam, n=n, seed=seed, cost=4))
+        for tf in ("rotated", "sheared", "affine"):
+            cases.append(dict(key=f"uniform/{fam}/n=3/{tf}", kind="uniform", fam=fam, n=3, tf=tf, seed=seed, cost=4))
     return cases
 
 
@@ -341,6 +343,13 @@ def run(case):
             mesh = fem.Rectangle(a=(0, 0), b=(2.0, 1.0), n=(n, max(2, n - 1)))
             if fam == "quad9":
                 mesh = mesh.add_midpoints_edges().add_midpoints_faces()
+        # uniform grids need not be axis aligned: every cell is the same parallelepiped after a rotation / a shear / a
+        # general affine map of the grid
+        tf = case.get("tf", "none")
+        if tf != "none":
+            d_ = mesh.dim
+            A_ = {"rotated": (zoo.generic_rotations(seed, 1)[0] if d_ == 3 else zoo.rot2(0.5)), "sheared": np.eye(d_) + 0.4 * np.eye(d_, k=1), "affine": zoo.affine_matrix(d_, seed)}[tf]
+            mesh = fem.Mesh(mesh.points @ A_.T + 0.3, mesh.cells, mesh.cell_type)
         Rg = zoo.region(fam, mesh)
         Ru = zoo.region(fam, mesh, uniform=True)
         u = 0.05 * zoo.offarr(seed, 1140, mesh.points.shape)
